@@ -32,7 +32,7 @@ def check_ctor(chk, env, kind, name, n, extra, exp, key, rule="C11.K"):
 
 def run(chk):
     cfgs = ["dbg"] if chk.tier == "quick" else ["dbg", "rel"]
-    nmax = 10 if chk.tier == "quick" else 12
+    nmax = 12   # every StaticLut alias; the dynamic Lut also at 13, 14 (both tiers; thorough adds the release configuration)
     chk.trust("rustc MIR construction and constant evaluation; std summaries (analysis/stdmodel.py); specs (analysis/specs.py)")
     chk.assume("n above %d follows the same code path (loops unrolled per n)" % nmax)
     for cfg in cfgs:
@@ -41,7 +41,7 @@ def run(chk):
         tag = "" if cfg == "dbg" else " [rel]"
         for kind in ("dyn", "static"):
             K = env.kinds[kind]
-            top = nmax + (2 if kind == "dyn" and chk.tier == "thorough" else 0)
+            top = nmax + (2 if kind == "dyn" else 0)
             for n in range(0, top + 1):
                 A = K.adt
                 check_ctor(chk, env, kind, "zero", n, [], S.const(n, 0), "%s::zero n=%d%s" % (A, n, tag))
